@@ -29,7 +29,7 @@
 //     on what the cell holds is ASSUMED in this unit; its one-step kernel is units/env_caches_shapes.unit.rs.
 //
 // Lemmas (what C16 needs): L0 lookup == fresh computation + invariant kept; L1 order independence (p then q == q then
-// p: outcomes and cache); L2 idempotence (second lookup: same Rc, nothing changes); L3 a failed lookup leaves no trace.
+// p: outcomes and cache); L2 idempotence (second lookup: the stored ops again, nothing changes); L3 a failed lookup leaves no trace.
 // NOT extracted: Environment::populate_stdlib (a `for` over `HashMap::drain()`); its callee
 // add_ops_for_path_and_content is (key = the library's `std/..` name, the embedded text, no file read, no type check).
 //@ include prelude/head.rs
@@ -71,7 +71,7 @@ pub open spec fn fresh_pointer(p: OpPointer, ops: Rc<OpsMap>, tag: Seq<char>) ->
 
 // THE CACHE CONTRACT (whole map, both directions). `m0`/`m1`: the cache before/after; `key`: the slot looked up;
 // `load(res)`: "res is what the computation for this key yields" (the closure's postcondition).
-//   hit  => the STORED ops are handed out (the same Rc), the cache is unchanged (and, by the precondition of
+//   hit  => the STORED ops are handed out (Verus identifies an Rc with its content: the stored value), the cache is unchanged (and, by the precondition of
 //           get_pointer_or_else, the computation cannot have been run: nothing is known about its precondition);
 //   miss => the computation ran: on Ok(o) the cache gains exactly key |-> o and the pointer handed out is to that very
 //           entry; on Err(e) the very error is returned and the cache is unchanged - no entry is left behind.
